@@ -1189,6 +1189,7 @@ def env_side(rng, perturbed, side):
         host=rng.choice(['shack', 'node-17.example.org', 'localhost', 'oe1rsa-pc']),
         pid=rng.randrange(2, 4000000),
         cpus=rng.choice([1, 2, 4, 16, 64]),
+        mem_pages=rng.choice([2048, 16384, 262144, 4194304, 33554432]),
         environ={'TZ': rng.choice(['UTC', 'Europe/Vienna', 'Asia/Kolkata', 'Pacific/Chatham']),
                  'COLUMNS': str(rng.choice([20, 80, 200])),
                  'LANG': rng.choice(['C', 'de_AT.UTF-8', 'tr_TR.UTF-8']),
@@ -1202,6 +1203,8 @@ def gen_plan(run_seed, tier='quick', env=None, kinds=None, shape=None):
     rng = random.Random(run_seed)
     if shape is None and env is None and rng.random() < (0.004 if tier == 'quick' else 0.02):
         return long_plan(run_seed, tier)
+    if shape is None and env is None and rng.random() < (0.001 if tier == 'quick' else 0.006):
+        return big_plan(run_seed, tier)
     perturbed = rng.random() < 0.7
     maxops = 24 if tier == 'quick' else 48
     if shape is None:
@@ -1322,6 +1325,9 @@ def floor_plans(base_seed, tier='quick'):
     # long histories: many repetitions on a tiny model
     for j, (kind, count) in enumerate([('api', 70), ('api', 140), ('api', 140), ('api', 270), ('sweep', 66), ('runs', 70)]):
         plans.append(long_plan(base_seed * 1000003 + 950000 + j, tier, kind, count))
+    # sizes beyond library / block thresholds
+    for j, kind in enumerate(['model', 'grid', 'cli', 'grid']):
+        plans.append(big_plan(base_seed * 1000003 + 960000 + j, tier, kind))
     return plans
 
 
@@ -1481,3 +1487,87 @@ def long_plan(run_seed, tier='quick', kind=None, count=None):
                 config='perturbed' if perturbed else 'plain',
                 hist=env_side(rng, perturbed, 'hist'), orac=env_side(rng, perturbed, 'orac'),
                 disk={}, tasks=[t], schedule=[0] * len(t['ops']))
+
+
+# ---------------------------------------------------------------- big worlds
+
+def big_model(rng):
+    """A model of 250..450 pulses (an array of parallel elements): sizes
+    beyond the thresholds at which libraries and 'clever' code change
+    behaviour (numpy summarises printed arrays above 1000 elements, block and
+    chunk sizes of 1024/2048/4096, memory-aware splitting)."""
+    m = Model()
+    k = rng.randrange(12, 21)
+    ns = rng.randrange(18, 25)
+    L = rng.choice([1.0, 2.0])
+    r = rng.choice([0.001, 0.002])
+    env = rng.choice(['free', 'free', 'ideal'])
+    h = 0.0 if env == 'free' else 3.0
+    a = []
+    for i in range(k):
+        li = L * (1 - 0.01 * i)
+        p1, p2 = (i * L / 4, -li / 2, h), (i * L / 4, li / 2, h)
+        o, v = _wire(ns, p1, p2, r)
+        a += [o, v]
+        m.geo.append(dict(kind='wire', nseg=ns, r=r, tag=None, etag=i + 1,
+                          p1=tuple(float(x) for x in p1), p2=tuple(float(x) for x in p2)))
+        m.radii.append(r)
+    m.template = 'big_array'
+    m.length = L
+    m.argv_geo = a
+    gen_env(rng, m, env)
+    m.argv_src = ['--excitation-pulse=%d,%d' % (ns // 2, rng.randrange(1, k + 1))]
+    if rng.random() < 0.5:
+        gen_loads(rng, m, [rng.choice(['impedance', 'skin_c'])])
+    m.features.append('big_model')
+    return m
+
+
+def big_plan(run_seed, tier='quick', kind=None):
+    rng = random.Random(run_seed)
+    kind = kind or rng.choice(['model', 'grid', 'cli'])
+    far_big = [[0, 5, 37], [0, 5, 73], None, 0]
+    far_big2 = [[0, 2, 46], [0, 4, 91], 100.0, 1000.0]
+    tasks = []
+    if kind == 'model':
+        m = big_model(rng)
+        f0 = round(150.0 / m.length, 3)
+        pool = [f0, round(f0 * 1.03, 3)]
+        ops = [['COMPUTE'], ['OBS_NUM'], ['SET_F', 1], ['COMPUTE'], ['FAR', 0], ['OBS_NUM'],
+               ['OBS_REPORT', ['far-field']]]
+        sib = (fuzz_variant if rng.random() < 0.6 else variant_model)(rng, m)
+        for mm_ in (m, sib):
+            tasks.append(dict(kind='api', builder='cli', argv=mm_.argv(), pool=list(pool),
+                              fars=[gen_far(rng)], nears=[], ops=[list(o) for o in ops],
+                              template=mm_.template, env=mm_.env, features=sorted(set(mm_.features)),
+                              probes=['big_model'], npulses=mm_.min_pulses()))
+        sched = [0] * len(ops) + [1] * len(ops)
+    elif kind == 'grid':
+        m = gen_model(rng)
+        pool, probes = gen_pool(rng, m, k=2)
+        ops = [['COMPUTE'], ['FAR', 0, 'r'], ['OBS_NUM'], ['SET_F', 1], ['COMPUTE'], ['FAR', 0, 'r'], ['OBS_NUM'],
+               ['FAR', 1], ['OBS_REPORT', ['far-field', 'far-field-absolute']], ['SET_F', 0], ['COMPUTE'],
+               ['FAR', 1], ['OBS_NUM']]
+        tasks.append(dict(kind='api', builder='cli', argv=m.argv(), pool=pool[:2], fars=[far_big, far_big2],
+                          nears=[], ops=ops, template=m.template, env=m.env,
+                          features=sorted(set(m.features + ['big_grid'])), probes=probes + ['big_grid'],
+                          npulses=m.min_pulses() + 2 * len(m.geo)))
+        sched = [0] * len(ops)
+    else:
+        m = big_model(rng) if rng.random() < 0.5 else gen_model(rng)
+        f0 = round(150.0 / max(m.length, 1.0), 3)
+        grid = ['--theta=0,5,37', '--phi=0,5,73'] if 'big_model' not in m.features or rng.random() < 0.3 \
+            else ['--theta=0,30,3', '--phi=0,90,2']
+        base = ['-f', repr(f0)] + m.argv() + grid + ['--output-cmdline', 'big.txt']
+        sib = (fuzz_variant if rng.random() < 0.6 else variant_model)(rng, m)
+        other = ['-f', repr(f0)] + sib.argv() + grid + ['--output-cmdline', 'big.txt']
+        ops = [['RUN', base], ['RUN', other], ['SWEEP', base, round(f0 * 0.02, 4), 2, 0], ['RUN', other], ['RUN', base]]
+        tasks.append(dict(kind='cli', ops=[_copy_op(o) for o in ops], template=m.template, env=m.env,
+                          features=sorted(set(m.features + ['big_cli'])), probes=['big_cli'],
+                          npulses=m.min_pulses() + 2 * len(m.geo), pool=[f0]))
+        sched = [0] * len(ops)
+    perturbed = rng.random() < 0.5
+    return dict(version=1, run_seed=run_seed, tier=tier, big=True,
+                config='perturbed' if perturbed else 'plain',
+                hist=env_side(rng, perturbed, 'hist'), orac=env_side(rng, perturbed, 'orac'),
+                disk={}, tasks=tasks, schedule=sched)
